@@ -1345,3 +1345,57 @@ growth_harness!(#[kani::unwind(6)]
 });
 
 /*@@GENERATED:column@@*/
+
+// ================================================================== U48: HashColumn::flush covers every table a log record can have written
+// IndexTable / ValueTable / RefCountTable::flush (msync) replaced by recorders. While an index growth is in progress the older
+// index tables in the reindex queue still receive writes when records are applied (enact_plan routes records by table id), so
+// they must be flushed before the logs describing those writes are reclaimed.
+pub(crate) static mut FLUSHED_BITS: [bool; 64] = [false; 64];
+pub(crate) static mut FLUSH_IX_N: usize = 0;
+pub(crate) fn stub_index_flush(t: &IndexTable) -> Result<()> {
+	unsafe {
+		FLUSH_IX_N += 1;
+		FLUSHED_BITS[(t.id.index_bits() & 63) as usize] = true;
+	}
+	Ok(())
+}
+growth_harness!(#[kani::unwind(8)] #[kani::stub(crate::index::IndexTable::flush, stub_index_flush)] u48_flush_covers_queued_index_tables, {
+	let col = std::mem::ManuallyDrop::new(mk_growing_column(0));
+	unsafe {
+		FLUSH_IX_N = 0;
+		FLUSHED_BITS = [false; 64];
+	}
+	assert!(ok(col.flush()).is_some(), "U48.flush.no_error");
+	assert!(unsafe { FLUSHED_BITS[18] }, "U48.flush.current_index_is_flushed");
+	assert!(unsafe { FLUSHED_BITS[16] && FLUSHED_BITS[17] }, "U48.flush.index_tables_still_queued_for_migration_are_flushed");
+	kani::cover!(unsafe { FLUSH_IX_N } >= 1, "reached");
+});
+
+// ================================================================== U49: hash_key on uniform-key columns
+// A uniform column admits every key of 32 bytes or more: hashing never panics, keeps bytes 16..32 of the key (the index and
+// the stored key tail are derived from them) and is a function of the key bytes.
+macro_rules! hash_key_harness {
+	($name:ident, $len:expr) => {
+		#[kani::proof]
+		#[kani::unwind(40)]
+		fn $name() {
+			let key: [u8; $len] = kani::any();
+			let salt: Salt = kani::any();
+			let version: u32 = kani::any();
+			kani::assume(version >= 4 && version <= crate::options::CURRENT_VERSION);
+			// (a build with the test / instrumentation features short-cuts a zero salt; Kani builds without them)
+			let k = hash_key(&key, &salt, true, version);
+			if version >= 8 {
+				let i: usize = kani::any();
+				kani::assume(i >= 16 && i < 32);
+				assert!(k[i] == key[i], "U49.hash_key.uniform_keeps_key_bytes_16_to_32");
+			}
+			let k2 = hash_key(&key, &salt, true, version);
+			assert!(k == k2, "U49.hash_key.is_a_function_of_key_and_salt");
+			kani::cover!(version >= 8, "reached");
+		}
+	};
+}
+hash_key_harness!(u49_hash_key_uniform_len32, 32);
+hash_key_harness!(u49_hash_key_uniform_len33, 33);
+hash_key_harness!(u49_hash_key_uniform_len40, 40);
